@@ -119,6 +119,23 @@ def run(ctx):
     if cov["drift"]:
         ctx.note("%d replayed scenarios showed a different recency order with identical observable results" % cov["drift"])
     cov["traces_validated_against_impl"] += cov["scenarios_replayed"]
+    # ---- "never drops unsaved pages" at store level: seeded runs of real statements in which a page write of a flush
+    # fails now and then (I/O error). The flush must report the failure, the page must stay dirty - hence resident -
+    # and when every clean page is then thrown out of the cache, every table must still read as the history implies.
+    import storelib
+    sbin = vlib.build_harness(ctx, "store")
+    spool = vlib.WorkerPool(ctx, sbin)
+    try:
+        scov = storelib.new_cov()
+        agg = storelib.random_runs(ctx, spool, scov, [dict(seed=ctx.seed * 1000 + 900 + i, n=(180 if ctx.quick() else 500), caps=([3, 3] if i % 2 else []), cache=0,
+                                                            pcrash=0.02, pflush=0.35, pfail=0.5, wal=False, maxrows=(4 if i % 2 else 10))
+                                                       for i in range(3 if ctx.quick() else 10)])
+        cov["store_level_write_faults"] = dict(runs=agg["runs"], statements=agg["statements"], flushes=agg["flushes"],
+                                               flushes_failed=agg.get("flushes_failed", 0), clean_pages_evicted_after=agg.get("evicted_after_failed_flush", 0))
+        if not agg.get("flushes_failed") and not ctx.violations:
+            raise vlib.Undecided("vacuous: no flush with a failing page write was run")
+    finally:
+        spool.close()
     vlib.write_evidence(ctx, "model_checking", cov, assumptions=[
         "TLC/SANY and the CommunityModules Json module are correct",
         "the accessor harness/overlay/storage/zz_verif_lru.go only forwards calls to LRUCache and reads its list",
